@@ -41,7 +41,7 @@ var weights = map[string]int{
 	"footnote": 4, "endnote": 4, "notecfg": 3, "listitem": 4, "bullet": 2, "numbered": 2,
 	"toc": 1, "autotoc": 1, "props": 3, "title": 1, "stats": 1, "pagesize": 1, "margins": 1,
 	"rmelemat": 1, "rmparaat": 1, "customstyle": 1,
-	"save": 4, "reopen": 6, "tpldoc": 5, "tplstr": 1, "md": 2,
+	"save": 4, "reopen": 6, "tpldoc": 4, "tpldoc2": 4, "tplstr": 1, "md": 2,
 }
 
 var classes = append(append([]string{}, gen.Expressible...), gen.ClsTemplate)
@@ -51,7 +51,7 @@ var cfg = &ops.Config{Classes: classes, Weights: weights}
 var relKinds = []string{"image", "image", "imagefile", "cellimg", "header", "footer", "headerpn", "footerpn", "fheader", "ffooter", "footnote", "endnote", "notecfg", "listitem", "bullet", "numbered"}
 
 var relCreating = map[string]bool{"image": true, "imagefile": true, "cellimg": true, "header": true, "footer": true, "headerpn": true, "footerpn": true,
-	"fheader": true, "ffooter": true, "footnote": true, "endnote": true, "notecfg": true, "listitem": true, "bullet": true, "numbered": true, "celllist": true, "tpldoc": true, "md": true}
+	"fheader": true, "ffooter": true, "footnote": true, "endnote": true, "notecfg": true, "listitem": true, "bullet": true, "numbered": true, "celllist": true, "tpldoc": true, "tpldoc2": true, "md": true}
 
 // fix makes more of the drawn ops land: tables with at least one cell, cell images inside the table.
 func fix(t *rapid.T, o ops.Op) ops.Op {
@@ -87,7 +87,7 @@ func history(t *rapid.T, min, max int) []ops.Op {
 // scenario: short sequences in which several calls have to cooperate
 func scenario(t *rapid.T) []ops.Op {
 	var out []ops.Op
-	switch rapid.IntRange(0, 7).Draw(t, "scn") {
+	switch rapid.IntRange(0, 10).Draw(t, "scn") {
 	case 0: // template image placeholder rendered from the current document
 		out = append(out, ops.Op{K: "para", S: []string{"{{#image p}}"}, Cls: []string{"img-placeholder"}})
 		if rapid.Bool().Draw(t, "two") {
@@ -119,8 +119,39 @@ func scenario(t *rapid.T) []ops.Op {
 		out = append(out, cfg.OpOf(t, "props"), cfg.OpOf(t, "fheader"), cfg.OpOf(t, "reopen"), cfg.OpOf(t, "footerpn"), cfg.OpOf(t, "numbered"))
 	case 7:
 		out = append(out, cfg.OpOf(t, "md"), cfg.OpOf(t, "image"), cfg.OpOf(t, "header"), cfg.OpOf(t, "reopen"), cfg.OpOf(t, "image"))
+	case 8: // one template rendered twice (possibly with ONE shared TemplateData object); the first render is saved afterwards
+		out = append(out, cfg.OpOf(t, "image"), twoRenders(t, true), cfg.OpOf(t, "image"))
+	case 9: // placeholder in a table cell, header relationship in the template, two renders
+		tb := cfg.OpOf(t, "table")
+		tb.I[0], tb.I[1], tb.I[2], tb.Grid = 2, 2, 9000, nil
+		ct := cfg.OpOf(t, "celltext")
+		ct.I[1], ct.I[2], ct.S = 0, 0, []string{"{{#image p}}"}
+		ct.Cls = []string{"img-placeholder"}
+		out = append(out, cfg.OpOf(t, "header"), tb, ct, twoRenders(t, false), cfg.OpOf(t, "footer"))
+	case 10:
+		out = append(out, cfg.OpOf(t, "header"), twoRenders(t, true), cfg.OpOf(t, "footer"), cfg.OpOf(t, "reopen"), twoRenders(t, true))
 	}
 	return out
+}
+
+// twoRenders draws a tpldoc2 op in which both renders carry a picture for {{#image p}}; half of the time the
+// two renders share one TemplateData object.
+func twoRenders(t *rapid.T, addPlaceholder bool) ops.Op {
+	o := cfg.OpOf(t, "tpldoc2")
+	for len(o.B) < 2 {
+		o.B = append(o.B, false)
+	}
+	o.B[0] = addPlaceholder
+	o.B[1] = rapid.Bool().Draw(t, "sharedtd")
+	if o.Data == nil {
+		o.Data = &ops.Data{}
+	}
+	if o.Data2 == nil {
+		o.Data2 = &ops.Data{}
+	}
+	o.Data.Imgs = map[string]gen.Img{"p": gen.Image(t, "pimg1")}
+	o.Data2.Imgs = map[string]gen.Img{"p": gen.Image(t, "pimg2")}
+	return o
 }
 
 var drawnIDs = []string{"R1a2b", "id5", "_x", "rId007", "docRId12", "rId3a", "Rc9e8f7", "rId10", "rId100", "RID3", "rid4", "Rel.1", "r-2", "图1", "rId2", "rId3", "rId6", "rId8"}
@@ -229,6 +260,35 @@ func (r *runner) judge(b []byte, at string) {
 	}
 }
 
+// judgeSide saves and judges (R1-R4) the documents that were replaced as the current one during the phase
+// (template bases, earlier renders, documents before a reopen): they are valid objects the caller may still
+// save, and saving them after later calls is what exposes state shared between documents.
+func (r *runner) judgeSide(phase string) {
+	side := r.x.Side
+	r.x.Side = nil
+	keepBase := r.base
+	r.base = nil // R5 speaks about the document that descends from the opened package, judged on its own saves
+	defer func() { r.base = keepBase }()
+	for i, d := range side {
+		if d == nil || r.dead {
+			continue
+		}
+		var b []byte
+		var err error
+		if p, _ := kit.Try(func() { b, err = d.ToBytes() }); p != nil {
+			r.res.Count("panic:ToBytes-side", 1)
+			continue
+		}
+		if err != nil {
+			r.res.Count("tobytes_errors", 1)
+			continue
+		}
+		r.res.Count("side_documents_judged", 1)
+		r.res.Label("side-document-judged")
+		r.judge(b, fmt.Sprintf("%s side document %d (saved late)", phase, i))
+	}
+}
+
 // saveNow serialises the current document and judges the package.
 func (r *runner) saveNow(at string) []byte {
 	var b []byte
@@ -270,7 +330,7 @@ func (r *runner) runOps(list []ops.Op, phase string) {
 		}
 		at := fmt.Sprintf("%s op %d", phase, i)
 		switch op.K {
-		case "reopen", "tpldoc", "tplstr", "md":
+		case "reopen", "tpldoc", "tpldoc2", "tplstr", "md":
 			// last look at the document object that is about to be replaced
 			r.saveNow(at + " (before " + op.K + ")")
 			if r.dead {
@@ -305,10 +365,16 @@ func (r *runner) runOps(list []ops.Op, phase string) {
 				r.res.Label("properties-set")
 			case "reopen":
 				r.res.Label("reopen")
-			case "tpldoc":
+			case "tpldoc", "tpldoc2":
 				r.base = nil // a rendered document is a new document (C18 judges what it keeps)
-				if placeholder && op.Data != nil && len(op.Data.Imgs) > 0 {
+				if (placeholder || (op.K == "tpldoc2" && len(op.B) > 0 && op.B[0])) && op.Data != nil && len(op.Data.Imgs) > 0 {
 					r.res.Label("tpl-image-placeholder")
+				}
+				if op.K == "tpldoc2" {
+					r.res.Label("two-renders")
+					if len(op.B) > 1 && op.B[1] {
+						r.res.Label("two-renders-shared-templatedata")
+					}
 				}
 			case "tplstr", "md":
 				r.base, r.baseTag = nil, "" // a brand-new document, unrelated to what was opened
@@ -336,6 +402,7 @@ func run(c Case) *kit.Result {
 	var b []byte
 	if !r.dead {
 		b = r.saveNow("build final")
+		r.judgeSide("build")
 	}
 	nonDenseExtended := false
 	if c.Foreign != nil && b != nil && !r.dead {
@@ -399,6 +466,7 @@ func run(c Case) *kit.Result {
 				r.runOps(c.Post, "post")
 				if !r.dead {
 					r.saveNow("post final")
+					r.judgeSide("post")
 				}
 				if r.grew && !libraryLike {
 					nonDenseExtended = true
@@ -445,7 +513,7 @@ func selfCheck(res *kit.Result, fb []byte) (*opc.Package, bool) {
 func TestC02(t *testing.T) {
 	kit.Main(t, kit.Spec[Case]{
 		ID: "C02", Level: "exploration",
-		Rule: "history of generated API calls weighted to relationship-creating calls (images in body and table cells, template image placeholders, headers/footers, lists, notes, note settings, properties) with save / reopen / template-render cycles in between; in half of the cases the saved package is rewritten by independent code into a foreign package (arbitrary, non-contiguous, non-rId relationship ids with a hole at count+2 or count+2 taken, styles relationship not rId1 / last / absent, external hyperlink, extra parts, header with its own relationship part, root with property relationships), opened and extended by a second history; every package saved on the way is judged. non-trivial = some judged package has >=3 relationships besides styles, or the document was opened with non-dense ids and a later save has more relationships than the opened package; distinct = distinct sequence of (op kind, outcome) plus the facts of the foreign rewrite",
+		Rule: "history of generated API calls weighted to relationship-creating calls (images in body and table cells, template image placeholders, headers/footers, lists, notes, note settings, properties) with save / reopen / template-render cycles in between; in half of the cases the saved package is rewritten by independent code into a foreign package (arbitrary, non-contiguous, non-rId relationship ids with a hole at count+2 or count+2 taken, styles relationship not rId1 / last / absent, external hyperlink, extra parts, header with its own relationship part, root with property relationships), opened and extended by a second history; every package saved on the way is judged, and the documents that were replaced as the current one (template bases, first of two renders, documents before a reopen) are saved and judged at the end of the phase. non-trivial = some judged package has >=3 relationships besides styles, or the document was opened with non-dense ids and a later save has more relationships than the opened package; distinct = distinct sequence of (op kind, outcome) plus the facts of the foreign rewrite",
 		Gen:  genCase, Run: run, Findings: findings, Fixed: fixedCases,
 		Assumptions: []string{
 			"relationship parts, targets and sources are read by the harness's own OPC reader; references are the attributes in the officeDocument relationships namespace found by an encoding/xml token scan of the main document and of the header/footer/notes parts it names",
@@ -453,6 +521,6 @@ func TestC02(t *testing.T) {
 			"a package that is ill-formed or has no unique main part is left to C01; a call that panics ends the history (C01.P0)",
 		},
 		MustSee: map[string]float64{"foreign:hole-at-len+2": 0.03, "foreign:len+2-taken": 0.05, "foreign:styles-not-rId1": 0.1, "image-in-table-cell": 0.15, "notes/settings-added": 0.3,
-			"opened-nondense-then-extended": 0.1, "tpl-image-placeholder": 0.03, "reopen": 0.3, "foreign:non-rId-ids": 0.05, "foreign:external-hyperlink": 0.05},
+			"opened-nondense-then-extended": 0.1, "tpl-image-placeholder": 0.03, "two-renders-shared-templatedata": 0.05, "side-document-judged": 0.3, "reopen": 0.3, "foreign:non-rId-ids": 0.05, "foreign:external-hyperlink": 0.05},
 	})
 }
